@@ -222,6 +222,7 @@ def check(chk):
     _request_loop_and_self_cancel(chk, repo)
     _actuation_and_playfield_requests(chk, repo)
     _claims_follow_the_balls(chk, repo)
+    _tilt_waiter_and_delayed_saves(chk, repo)
 
     # ------------------------------------------------------------- BOOL-1
     n_h = 0
@@ -411,6 +412,38 @@ def _claims_follow_the_balls(chk, repo):
     w = gcfg.must_pass(gcfg.entry.id, [n.id for n in rep])
     chk.ob("CLAIMS-5", "the replaced balls are added to the multiball's request under both count policies (total and add)", w is None, g.where(rep[0].ast), construct=g.ident,
            detail="guards %s" % sorted(gcfg.guards_at(rep[0].id).items()), text="replaced balls requested", path=gcfg.fmt_path(w, g) if w else None, nontrivial=True)
+
+
+def _tilt_waiter_and_delayed_saves(chk, repo):
+    """WAIT-5: a ball that waits for the player in a device with an ejector is not left there by a tilt: every player-controlled eject of such a
+    device also waits for `tilt` (launch button and mechanical plunger alike) - the wait has no time-out, so without it the request is never
+    served and the device never returns to idle.
+    SAVE-5 (delay): each delayed delivery of saved balls is a delay of its own (anonymous): under a fixed name a second save inside the eject
+    delay would replace the first pending delivery and one saved ball would never be requested."""
+    from sa.cfg import canon_set as _cs, canon_fact as _cf
+    from sa.helpers import positive as _pos
+    f = repo.func(OB, "OutgoingBallsHandler._eject_ball")
+    chk.analysed(f)
+    cfg = f.cfg()
+    tw = [n for n in cfg.nodes if n.kind == "stmt" and isinstance(n.ast, ast.Assign) and src(n.ast.targets[0]) == "tilt" and isinstance(n.ast.value, ast.Call) and
+          call_attr(n.ast.value) == "wait_for_event" and n.ast.value.args and const_value(n.ast.value.args[0]) == "tilt"]
+    chk.need(tw, "WAIT-5", "a player-controlled eject also waits for the tilt event", f)
+    for n in tw:
+        got = _pos(set(_cs(cfg.guards_at(n.id))))
+        want = _pos({_cf("self.ball_device.ejector", True), _cf("eject_request.player_controlled", True)})
+        chk.ob("WAIT-5", "every player-controlled eject of a device with an ejector waits for tilt (nothing else decides)", got == want, f.where(n.ast),
+               detail="tilt waiter under %s" % sorted(got), construct=f.ident, text="tilt waiter condition")
+    apps = [m for m, c in cfg.calls_named("append") if src(c.func.value) == "waiters" and c.args and src(c.args[0]) == "tilt"]
+    ok = bool(apps) and all(cfg.must_pass(n.id, [a.id for a in apps]) is None for n in tw)
+    chk.ob("WAIT-5", "the tilt waiter joins the set the eject waits on", ok, f.where(), construct=f.ident, text="tilt waiter awaited")
+    g = repo.func("mpf/devices/ball_save.py", "BallSave._schedule_balls")
+    chk.analysed(g)
+    adds = [c for c in g.calls() if call_attr(c) in ("add", "reset", "add_if_doesnt_exist") and "delay" in src(c.func.value) and "_add_balls" in src(c)]
+    chk.need(adds, "SAVE-5", "BallSave._schedule_balls delays the delivery by eject_delay", g)
+    for c in adds:
+        named = kwarg(c, "name") is not None or call_attr(c) != "add" or len(c.args) >= 3
+        chk.ob("SAVE-5", "each delayed delivery of saved balls is a delay of its own (anonymous add)", not named, g.where(c), detail=src(c)[:90], construct=g.ident,
+               text="delayed save delivery named")
 
 
 def _requests_sized_by_unclaimed(chk, repo):
@@ -770,6 +803,8 @@ def canon_guard_only(g, text):
 def battery():
     from sa.battery import M
     return [
+        M("launch-button plunger no longer ejects on tilt", OB, "                if eject_request.player_controlled:\n                    tilt = self.machine.events.wait_for_event(\"tilt\")", "                if eject_request.player_controlled and self.ball_device.config['mechanical_eject']:\n                    tilt = self.machine.events.wait_for_event(\"tilt\")", "WAIT-5"),
+        M("delayed save delivery under a fixed name", "mpf/devices/ball_save.py", "self.delay.add(self.config['eject_delay'], self._add_balls, balls_to_save=balls_to_save)", "self.delay.add(self.config['eject_delay'], self._add_balls, name='eject_delay', balls_to_save=balls_to_save)", "SAVE-5"),
         M("lost ball stays available unless the device was idle", BD, "            self.warning_log(\"Ball disappeared while idle. This should not normally happen.\")\n        self.available_balls -= 1", "            self.warning_log(\"Ball disappeared while idle. This should not normally happen.\")\n            self.available_balls -= 1", "CLAIMS-5"),
         M("replaced balls requested under the add policy only", "mpf/devices/multiball.py", "            self.balls_live_target = self.machine.game.balls_in_play\n\n        self.balls_added_live += balls_to_replace", "            self.balls_live_target = self.machine.game.balls_in_play\n            self.balls_added_live += balls_to_replace", "CLAIMS-5"),
         M("already-left tracker only ended on success", OB, "                    await self.ball_device.ball_count_handler.end_eject(ball_eject_process, result)\n                    if result:\n                        continue", "                    if result:\n                        await self.ball_device.ball_count_handler.end_eject(ball_eject_process, True)\n                        continue", "PAIR-5"),
